@@ -24,7 +24,7 @@ def run(chk, tier, seed):
         chk.broken.append("harness does not build against /repo: " + binary[-1500:])
         return
     rng = random.Random(seed * 4099 + 8)
-    roots = D.roots_for(U, exclude=("k13bulk", "hist", "kf", "arrayvec", "ignored"))
+    roots = D.roots_for(U, exclude=("k13bulk", "hist", "kf", "arrayvec", "ignored", "vervariant"))
     pick = rng.sample(roots, min(len(roots), 14 if tier == "quick" else 60))
     known = {e["id"]: e for e in C.known_findings("C08")}
     lines, meta = [], {}
